@@ -343,8 +343,10 @@ theorem C03_tpl_single_request_safe (fuel : Nat) (s : TSite) (hu : TokensUnique 
   serveFresh_safe fuel s hu hi r
 
 /-- Hence the judge of `c03.tpl` accepts the model's answer to every sequence, from any pool,
-under any choice of buffers. -/
-theorem C03_tpl_model_verdict_ok (fuel fuelJ : Nat) (s : TSite) (hu : TokensUnique s) (hi : IncludeSafe s)
+under any choice of buffers.  PARTIAL: `IncludeSafe` excludes exactly the sites where a page
+includes a file that is closed to someone the page is open to — there the property fails by the
+template's own doing (`C03_tpl_include_fails_witness`). -/
+theorem C03_tpl_model_verdict_ok_partial (fuel fuelJ : Nat) (s : TSite) (hu : TokensUnique s) (hi : IncludeSafe s)
     (pool : List Page) (steps : List (TReq × Option Nat)) :
     verdict fuelJ s (observed steps (run true fuel s pool steps)) = "ok" :=
   run_verdict_ok fuel fuelJ s hu hi pool steps
@@ -396,6 +398,19 @@ theorem C03_tpl_stale_buffer_fails_witness :
     offends tSite none 21 = true ∧
     (tokensOf (serveFresh 16 tSite { path := b! "/home.html", creds := none })).any (offends tSite none) = false ∧
     run false 16 tSite [] (tSteps.map fun st => (st.1, none)) = [.error, .rendered [10, 40]] := by
+  decide
+
+/-- `.Include` reads the file below the site root; basicauth and internal do not apply to it.  A
+public page that includes a protected partial hands its content to anyone, while the partial's
+own URL answers 401 (known finding C03-template-includes-protected). -/
+def tIncSite : TSite := { tSite with
+  files := [(b! "/digest.html", [.lit 11, .incl (b! "/secret/part.html")]), (b! "/secret/part.html", [.lit 27])] }
+
+theorem C03_tpl_include_fails_witness :
+    serveFresh 16 tIncSite { path := b! "/secret/part.html", creds := none } = .unauthorized ∧
+    serveFresh 16 tIncSite { path := b! "/digest.html", creds := none } = .rendered [11, 27] ∧
+    offends tIncSite none 27 = true ∧
+    (reach tIncSite.files 16 [.lit 11, .incl (b! "/secret/part.html")]).contains 27 = true := by
   decide
 
 end TplPool
